@@ -779,6 +779,23 @@ type RigOpts struct {
 	MITM      bool
 	Listener  string // "plain" | "shaped" | "tls" (transparent TLS listener)
 	Transport string // "pipe" | "tcp" (client leg)
+	// RoundTripper: "" = an *http.Transport installed with SetRoundTripper;
+	// "clone" = a wrapping http.RoundTripper that, like oauth2.Transport or
+	// header-injecting wrappers, hands a clone of the request to the
+	// *http.Transport it owns (so the response's Request is the clone).
+	RoundTripper string
+}
+
+// cloneRT obeys the RoundTripper contract ("must not modify the request"): it
+// works on a shallow copy with its own header map and delegates.
+type cloneRT struct{ base http.RoundTripper }
+
+func (c cloneRT) RoundTrip(req *http.Request) (*http.Response, error) {
+	req2 := new(http.Request)
+	*req2 = *req
+	req2.Header = req.Header.Clone()
+	req2.Header.Set("X-Vh-Wrapped", "1")
+	return c.base.RoundTrip(req2)
 }
 
 // Rig is one proxy under observation.
@@ -813,7 +830,15 @@ func NewRig(ca *CA, o RigOpts) (*Rig, error) {
 		TLSHandshakeTimeout:   Watchdog,
 		ExpectContinueTimeout: time.Second,
 	}
-	p.SetRoundTripper(g.tr)
+	if o.RoundTripper == "clone" {
+		// SetRoundTripper wires dial and proxy settings only into an
+		// *http.Transport: configure the inner transport like NewProxy does.
+		g.tr.TLSNextProto = make(map[string]func(string, *tls.Conn) http.RoundTripper)
+		g.tr.Dial = g.O.Dial
+		p.SetRoundTripper(cloneRT{g.tr})
+	} else {
+		p.SetRoundTripper(g.tr)
+	}
 	p.SetDial(g.O.Dial)
 	p.SetRequestModifier(g.Rec)
 	p.SetResponseModifier(g.Rec)
